@@ -9,9 +9,9 @@ coefficient dictionaries are compared; bookkeeping such as num_ancillas or the l
 """
 import warnings
 
-from .common import (clause, Fail, Skip, qv, cls_of, LABELS, INT_LABELS, INT_COEFS, gen_models, variables_of,
-                     snapshot, close, MODEL_TYPES, MATRIX_TYPES, DEG2_TYPES, labels_for)
-from .c02 import RELS, LAMS, add_constraint, true_range, sum_enclosure, anc_estimate, _to_bool, _special_polys
+from .common import (clause, Fail, cls_of, LABELS, INT_COEFS, gen_models, snapshot, close, MODEL_TYPES, DEG2_TYPES,
+                     labels_for)
+from .c02 import RELS, add_constraint, true_range, sum_enclosure, anc_estimate, _to_bool, _special_polys
 from .c03 import to_spin
 from . import c06
 
